@@ -21,9 +21,10 @@ def adapters():
 
     DA = RecordDescriptor("t/sel", sg.FIELDS)
     DB = RecordDescriptor("t/other", [("varint", "n"), ("string", "q")])
+    DM = RecordDescriptor("t/sel", sg.FIELDS_M)  # same type name as DA, one more (string) field
     DV = RecordDescriptor("t/avro", [("varint", "n"), ("string", "s"), ("boolean", "t")])
     return {
-        "stream": ("out.records", [DA, DB]), "streamgz": ("out.records.gz", [DA, DB]), "json": ("out.json", [DA, DB]), "avro": ("out.avro", [DV]),
+        "stream": ("out.records", [DA, DB, DM]), "streamgz": ("out.records.gz", [DA, DB, DM]), "json": ("out.json", [DA, DB, DM]), "avro": ("out.avro", [DV]),
         "csv": ("out.csv", [DV]), "sqlite": ("sqlite://out.db", [DA, DB]),
     }
 
@@ -31,7 +32,7 @@ def adapters():
 def build(desc, i, rnd):
     names = [n for _, n in desc.get_field_tuples()]
     vals = {"n": i, "s": rnd.choice(["", "a", "Ab", "b"]), "l": rnd.choice([[], ["a"], ["a", "b"], ["Ab"]]), "z": None, "t": rnd.choice([True, False]), "q": rnd.choice(["a", "x"]),
-            "ip": rnd.choice(["10.0.0.1", "10.0.0.2", None]), "p": rnd.choice(["/a", "/a/B", None]), "w": rnd.choice(["a", "zz"])}
+            "ip": rnd.choice(["10.0.0.1", "10.0.0.2", None]), "p": rnd.choice(["/a", "/a/B", None]), "w": rnd.choice(["a", "zz"]), "m": rnd.choice(["only-in-m", "a"])}
     return desc(**{k: vals[k] for k in names}, _generated=gen.GEN)
 
 
@@ -46,7 +47,22 @@ def obs(r):
     return json.dumps(observe.obs_record(r), sort_keys=True)
 
 
-def run_case(path, sel_obj, nrec):
+# independent meaning of some selectors over the WRITTEN values (used where the reader returns the values unchanged)
+REF = {
+    "Type.string == 'only-in-m'": lambda v: v.get("m") == "only-in-m",
+    "'only-in' in Type.string": lambda v: "only-in" in (v.get("m") or ""),
+    "field_contains(r, Type.string, ['only-in-m'])": lambda v: v.get("m") == "only-in-m",
+    "r.q == 'a'": lambda v: v.get("q") == "a",
+    "r.n in [1, 2, 5]": lambda v: v["n"] in (1, 2, 5),
+    "has_field(r, 's')": lambda v: "s" in v,
+    "not r.t": lambda v: not v.get("t", False),
+    "r.n >= 3 or r.q == 'x'": lambda v: v["n"] >= 3 or v.get("q") == "x",
+    "r.missing == 1": lambda v: False,
+    "any(f.name == 'q' for f in fields('string'))": lambda v: "q" in v,
+}
+
+
+def run_case(path, sel_obj, nrec, written=None, ref=None):
     """-> case dict for Trace_Filter"""
     from flow.record import RecordReader
 
@@ -98,11 +114,15 @@ def run_case(path, sel_obj, nrec):
     for r in allrecs:
         i = rid(r)
         recs.append({"id": i, "inline": i in inline, "after": after.get(i, False), "pure": pure.get(i, True), "stable": stable.get(i, True)})
-    return {"recs": recs, "end_inline": end_inline, "end_after": end_after, "values_equal": inline_obs == after_obs or end_inline != "end" or end_after != "end",
+    ref_ok = True
+    if ref is not None and written is not None and end_inline == "end":
+        ref_ok = inline == [i for i, v in written if ref(v)]
+    return {"recs": recs, "ref_ok": ref_ok, "end_inline": end_inline, "end_after": end_after, "values_equal": inline_obs == after_obs or end_inline != "end" or end_after != "end",
             "n_all": len(allrecs)}
 
 
-EXTRA_SELECTORS = ["Type.string == 'a'", "'a' in Type.string", "Type.varint > 3", "name(r) == 't/sel'", "has_field(r, 's')", "r.s in ['a', 'Ab']",
+EXTRA_SELECTORS = ["Type.string == 'only-in-m'", "'only-in' in Type.string", "field_contains(r, Type.string, ['only-in-m'])", "'zz' in r.l + ['zz']", "(r.l + r.l) == []", "r.l * 2 == []",
+                   "Type.string == 'a'", "'a' in Type.string", "Type.varint > 3", "name(r) == 't/sel'", "has_field(r, 's')", "r.s in ['a', 'Ab']",
                    "any(x == 'a' for x in r.l)", "any(x == 'a' for x in r.l) and any(x == 'b' for x in r.l)", "field_contains(r, ['s', 'q'], ['A'])",
                    "r.q == 'a'", "r.q != 'a'", "r.n % 2 == 0 and r.s != ''", "not r.t", "r.n >= 3 or r.q == 'x'", "r.missing == 1", "r.n",
                    "any(f.name == 's' for f in fields('string'))", "any(f.name == 'q' for f in fields('string'))", "lower(r.s) == 'ab'", "r.n in [1, 2, 5]", "r.s < 'b'"]
@@ -130,9 +150,12 @@ def run(tier):
                 os.remove(os.path.join(tmp, f))
             full = url.replace("://", "://" + tmp + "/") if "://" in url else os.path.join(tmp, url)
             n = ctx.rnd.randint(3, 8)
+            written = []
             with RecordWriter(full) as w:
                 for i in range(1, n + 1):
-                    w.write(build(ctx.rnd.choice(descs), i, ctx.rnd))
+                    rec = build(ctx.rnd.choice(descs), i, ctx.rnd)
+                    written.append((i, {fn: getattr(rec, fn) for _, fn in rec._desc.get_field_tuples()}))
+                    w.write(rec)
             for s in sels:
                 forms = {"text": s}
                 try:
@@ -143,7 +166,7 @@ def run(tier):
                 for fname, so in forms.items():
                     if fname == "compiled" and ("fields(" in s):
                         continue  # `fields` exists only in the interpreted namespace
-                    c = run_case(full, so, n)
+                    c = run_case(full, so, n, written, REF.get(s) if aname in ("stream", "streamgz", "json") else None)
                     c["adapter"], c["form"] = aname, fname
                     cases.append(c)
                     metas.append((aname, fname, s, q))
